@@ -1,0 +1,72 @@
+//go:build verif
+
+// Contracts of this package for the deductive verifier in /verif (vcgo).
+// Comment-only; compiled only with -tags verif.
+
+package middleware
+
+// ---------------------------------------------------------------------------
+// Auth middleware (C09): ghost record of what one Verify call did.
+//   gAborted/gStatus   the request was aborted with this status
+//   gNext              the rest of the handler chain was run
+//   gSet/gSetVal       a value was stored in the gin context (under the token key)
+//   gVerified/gVerifyErr/gVerifyTok   the verifier was consulted and what it said
+
+//@ ghost gAborted bool
+//@ ghost gNext bool
+//@ ghost gSet bool
+//@ ghost gSetVal any
+//@ ghost gVerified bool
+//@ ghost gVerifyErr error
+//@ ghost gVerifyTok *auth.Token
+//@ ghost gVerifyArgTok string
+//@ ghost gVerifyArgTenant string
+//@ ghost gAuthCreated bool
+
+//@ extern github.com/gin-gonic/gin.(*Context).AbortWithStatusJSON
+//@   modifies-all $gAborted $gStatus $gWrote
+//@   ghost-set gAborted = true
+//@   ghost-set gStatus = code
+//@   ghost-set gWrote = true
+//@ extern github.com/gin-gonic/gin.(*Context).AbortWithStatus
+//@   modifies-all $gAborted $gStatus $gWrote
+//@   ghost-set gAborted = true
+//@   ghost-set gStatus = code
+//@   ghost-set gWrote = true
+//@ extern github.com/gin-gonic/gin.(*Context).Next
+//@   modifies-all $gNext
+//@   ghost-set gNext = true
+//@ extern github.com/gin-gonic/gin.(*Context).Set
+//@   modifies-all $gSet $gSetVal
+//@   ghost-set gSet = true
+//@   ghost-set gSetVal = value
+//@ extern strings.Cut
+//@   ensures[cut] result2 ==> s == result0 + sep + result1
+
+//@ nonnil Auth.verifier
+//@ immutable Auth.verifier Auth.logger
+
+//@ contract NewAuth
+//@   serves C09
+//@   ghost-set gAuthCreated = true
+//@   ensures[fresh] result != nil && fresh(result) && result.verifier == verifier
+//@   opt frame true
+
+// The authorization header in force: x-piko-authorization when non-empty, else Authorization.
+//@ pure authHeader(c *gin.Context) string = (hdrPikoAuth[c.Request.Header] != "") ? hdrPikoAuth[c.Request.Header] : hdrAuth[c.Request.Header]
+
+//@ contract (*Auth).parseToken
+//@   serves C09
+//@   requires[context] c != nil && c.Request != nil && c.Request.Header != nil
+//@   requires[fresh-step] !gAborted
+//@   ensures[bearer] result1 ==> !gAborted && authHeader(c) == "Bearer" + " " + result0
+//@   ensures[401] !result1 ==> gAborted && gStatus == 401
+
+//@ contract (*Auth).Verify
+//@   serves C09 C10
+//@   requires[context] c != nil && c.Request != nil && c.Request.Header != nil
+//@   requires[fresh-step] !gAborted && !gNext && !gSet && !gVerified && !gInnerCalled
+//@   ensures[next-only-on-ok] gNext ==> gVerified && gVerifyErr == nil && !gAborted && gSet && gSetVal == asIface(gVerifyTok, "any") && gVerifyTok != nil
+//@   ensures[token-presented] gVerified ==> authHeader(c) == "Bearer" + " " + gVerifyArgTok && gVerifyArgTenant == hdrTenant[c.Request.Header]
+//@   ensures[abort-otherwise] !gNext ==> gAborted && (gStatus == 401 || gStatus == 500)
+//@   ensures[401-declared] !gNext && (!gVerified || errIs(gVerifyErr, auth.ErrInvalidToken) || errIs(gVerifyErr, auth.ErrExpiredToken) || errIs(gVerifyErr, auth.ErrUnknownTenant)) ==> gStatus == 401
